@@ -40,6 +40,12 @@ void harness(void) {
 #endif
   ASSUME(start <= STARTMAX);
   ASSUME(n <= GBUF && start <= n && c1 <= CMAX && c2 <= CMAX);
+#ifdef CFIX
+  ASSUME(c1 == CFIX);
+  c1 = CFIX;
+  ASSUME(c2 == CFIX || c2 == 0 || c2 == 1);
+  if (c2 >= 2) c2 = CFIX;
+#endif
   glue_fill(g_buf, g_shadow, GBUF);
   assemblyline_t al = asm_create_instance(g_buf, (int)n);
   ASSUME(al);
